@@ -26,6 +26,8 @@
         ctx := reqctx | connctx     schema := (build def) | (build (preprocess (clone def)))
         feat := nil | (fn <ctx>)    cost := zero | default
 
+    (jpost x<hex>) | (jpayload x<hex>) | (jmap x<hex>) | (jframe x<hex>)     -- byte-level JSON decoders, see JsonDriver.lean
+
   In the `serve-*` operations the uninterpreted pipeline pieces are instantiated by *term
   constructors*: the reply names the calls the model makes and their arguments; the harness
   evaluates that term with the real library (called directly, without any transport) and compares
@@ -37,6 +39,7 @@ import ApiFu.Common.Sexp
 import ApiFu.Common.Loop
 import ApiFu.C17.Model
 import ApiFu.C17.UrlCodec
+import ApiFu.C17.JsonDriver
 
 open ApiFu ApiFu.C17
 
@@ -204,6 +207,9 @@ def handle (line : String) : String :=
       | .dataThenComplete id t => toString (Sexp.node "data" [Sexp.str id, t])
       | .subscription id => toString (Sexp.node "subscription" [Sexp.str id])
     | _, _, _, _ => "bad-op"
+  | some (Sexp.list [Sexp.atom op, Sexp.atom arg]) =>
+    -- byte-level JSON model (JsonDriver.lean): jpost | jpayload | jmap | jframe
+    Json.jsonHandle op arg
   | _ => "bad-op"
 
 def main : IO Unit := lineLoopPure handle
